@@ -147,12 +147,12 @@ def main(argv=None):
             violations.append(v)
 
         # generator drift: interesting classes must actually occur
-        for cls, frac in getattr(mod, 'MIN_FRACTIONS', {}).items():
+        for cls, frac in ([] if violations else getattr(mod, 'MIN_FRACTIONS', {}).items()):
             got = res.classes.get(cls, 0) / float(max(res.evaluations, 1))
             if got < frac:
                 raise build.HarnessError('generator drift: class %r is %.4f of cases, '
                                          'minimum %.4f' % (cls, got, frac))
-        if res.evaluations < 1 or len(res.nontrivial) < 2:
+        if not violations and (res.evaluations < 1 or len(res.nontrivial) < 2):
             raise build.HarnessError('vacuous run: %d evaluations, %d non-trivial'
                                      % (res.evaluations, len(res.nontrivial)))
 
